@@ -68,7 +68,9 @@ type Node struct {
 	fencedInc   int
 	// C05: highest term this node answered NewTerm for (must never go backwards, also across restarts)
 	maxTermAnswered int64
-	deletions       int // how many times the coordinator had this node delete its replica
+	// highest term of any append, truncation, snapshot or BecomeLeader handed to this incarnation of the node
+	maxTrafficTerm int64
+	deletions      int // how many times the coordinator had this node delete its replica
 }
 
 func (n *Node) server() model.Server {
@@ -108,6 +110,7 @@ func (n *Node) start() error {
 	n.irpc = server.NewVerifInternalRPC(n.director, nil)
 	n.up = true
 	n.inc++
+	n.maxTrafficTerm = -1
 	n.deleted = false
 	return nil
 }
@@ -142,7 +145,11 @@ func (n *Node) stop() {
 func (n *Node) noteFenced(term int64, head *proto.EntryId) {
 	n.mu.Lock()
 	defer n.mu.Unlock()
-	n.fencedTerm, n.fencedHead, n.fencedValid, n.fencedInc = term, head, true, n.inc
+	// "its log does not grow until it receives entries ... from the leader of a term >= T": when traffic of a term
+	// >= T had already been handed to the node before it answered (only possible for a duplicate NewTerm(T) that
+	// arrives while a leader of term >= T exists), whether the node takes it before or after the NewTerm is not
+	// visible from outside and both are admissible - that answer arms nothing (thorough tier, rapid seed 4627022)
+	n.fencedTerm, n.fencedHead, n.fencedValid, n.fencedInc = term, head, term > n.maxTrafficTerm, n.inc
 	if term > n.maxTermAnswered {
 		n.maxTermAnswered = term
 	}
@@ -153,6 +160,9 @@ func (n *Node) noteReplicationFrom(term int64) {
 	defer n.mu.Unlock()
 	if n.fencedValid && term >= n.fencedTerm {
 		n.fencedValid = false
+	}
+	if term > n.maxTrafficTerm {
+		n.maxTrafficTerm = term
 	}
 }
 
@@ -323,7 +333,7 @@ func newCluster(dir string, nNodes, rf int, segSize int32) (*Cluster, error) {
 	c.nsConfig = &model.NamespaceConfig{Name: nsName, InitialShardCount: 1, ReplicationFactor: uint32(rf)}
 	for i := 0; i < nNodes; i++ {
 		name := fmt.Sprintf("n%d", i)
-		n := &Node{c: c, name: name, dir: filepath.Join(dir, name), segSize: segSize, maxTermAnswered: -1}
+		n := &Node{c: c, name: name, dir: filepath.Join(dir, name), segSize: segSize, maxTermAnswered: -1, maxTrafficTerm: -1}
 		c.nodes[name] = n
 		c.order = append(c.order, name)
 		if err := n.start(); err != nil {
@@ -352,7 +362,7 @@ func newBareCluster(dir string, names []string, segSize int32) (*Cluster, error)
 	c.wire = newWire(c, c.hist)
 	c.nsConfig = &model.NamespaceConfig{Name: nsName, InitialShardCount: 1, ReplicationFactor: uint32(len(names))}
 	for _, name := range names {
-		n := &Node{c: c, name: name, dir: filepath.Join(dir, name), segSize: segSize, maxTermAnswered: -1}
+		n := &Node{c: c, name: name, dir: filepath.Join(dir, name), segSize: segSize, maxTermAnswered: -1, maxTrafficTerm: -1}
 		c.nodes[name] = n
 		c.order = append(c.order, name)
 		if err := n.start(); err != nil {
